@@ -817,6 +817,37 @@ func runC18(c *CaseCtx) *CaseResult {
 			res.fail(viol("reject-trace", "rejected Store/Remove with the undefined id changed the write set"))
 		}
 		w.stats.Extra["undefined-id-requests"] += 4
+		// invalid ranges (arrays): typed user errors, no trace
+		if root.Kind == KArr {
+			if err := w.handle(root); err == nil {
+				L := uint64(len(root.Elems))
+				nop := func(atree.Value) (bool, error) { return true, nil }
+				w.st.BeginOp()
+				d1 := w.ps.Deltas()
+				for _, b := range [][2]uint64{{L + 1, L + 1}, {0, L + 1}, {L + 3, L + 9}} {
+					for _, f := range []func(uint64, uint64, atree.ArrayIterationFunc) error{root.Arr.IterateRange, root.Arr.IterateReadOnlyRange} {
+						err := f(b[0], b[1], nop)
+						var se *atree.SliceOutOfBoundsError
+						if err == nil || !errors.As(err, &se) || !isUserError(err) {
+							res.fail(viol("ret-err", "range (%d,%d) on %d elements: expected slice-out-of-bounds user error, got %v", b[0], b[1], L, err))
+						}
+						w.stats.Rejected++
+					}
+				}
+				if L >= 1 {
+					err := root.Arr.IterateRange(L, L-1, nop)
+					var ie *atree.InvalidSliceIndexError
+					if err == nil || !errors.As(err, &ie) || !isUserError(err) {
+						res.fail(viol("ret-err", "range (%d,%d): expected invalid-slice-index user error, got %v", L, L-1, err))
+					}
+					w.stats.Rejected++
+				}
+				if w.ps.Deltas() != d1 || w.st.OpStores+w.st.OpRemoves+w.st.OpGenerates != 0 {
+					res.fail(viol("reject-trace", "rejected range requests touched the storage"))
+				}
+				w.stats.Extra["invalid-range-requests"]++
+			}
+		}
 		if err := w.externalErrorEnumeration(root); err != nil {
 			res.fail(err.(*Violation))
 		}
